@@ -196,13 +196,44 @@ def neg_dnf(d):
 
 
 def implies(a, b, hyp=()):
-    """a => b under hyp; returns (True, None) or (False, witness conj)."""
-    nb = neg_dnf(b)
+    """a => b under hyp; returns (True, None) or (False, witness conj).
+    Decided by searching for a model of  ca and not b  for each conjunction
+    ca of a: not b is a conjunction of clauses (one negated atom from every
+    conjunction of b), explored depth-first with the difference-constraint
+    satisfiability test pruning partial choices."""
+    clauses = []
+    for cb in b:
+        if not cb:
+            return True, None           # b contains True
+        clauses.append(sorted((neg_atom(x) for x in cb), key=repr))
+    # cheap clauses first
+    clauses.sort(key=len)
+    budget = [200000]
+
+    def search(cur, i):
+        budget[0] -= 1
+        if budget[0] < 0:
+            raise Unrecognised("guard comparison too large")
+        if i == len(clauses):
+            return cur
+        cl = clauses[i]
+        if any(x in cur for x in cl):
+            return search(cur, i + 1)
+        for x in cl:
+            if neg_atom(x) in cur:
+                continue
+            nxt = cur | {x}
+            if sat(nxt, hyp):
+                r = search(nxt, i + 1)
+                if r is not None:
+                    return r
+        return None
     for ca in a:
-        for cb in nb:
-            c = ca | cb
-            if sat(c, hyp):
-                return False, c
+        if not sat(ca, hyp):
+            continue
+        w = search(frozenset(ca), 0)
+        if w is not None:
+            return False, w
     return True, None
 
 
